@@ -191,6 +191,16 @@ func c16Family(sc *Scenario, v *Violation) *Violation {
 	if v == nil || fam == "" {
 		return v
 	}
+	// only the schema input as generated carries the family label: once a fault or damage is added, whatever
+	// goes wrong may have another cause and keeps its own signature
+	if len(sc.Faults) > 0 || sc.Disk.Capacity > 0 {
+		return v
+	}
+	for _, f := range sc.Disk.Files {
+		if len(f.Damage) > 0 {
+			return v
+		}
+	}
 	if v.Class == "budget" || (v.Class == "fatal" && (strings.Contains(v.Signature, "memory") || strings.Contains(v.Signature, "stack-overflow"))) {
 		return &Violation{Class: "exhausted", Signature: "exhausted#stress:" + fam, Detail: "stress schema " + sc.Note + ": " + v.Detail + " [" + v.Signature + "]"}
 	}
@@ -829,6 +839,8 @@ func checkC16(tier string) {
 			"truncation_every_offset_runs":  exhaustive,
 			"simulated_time_covered_ticks":  c.TotalTicks,
 			"fault_kinds":                   c16FaultKinds,
+			"real_directory_leg":            "a sample of the fault-free twins (1 in 25; a third of them with outputs of an earlier, longer run present and newer than the sources, a third with one output path replaced by a symlink to /dev/full and the matching write error in the simulated run) and of the fault runs whose faults a real directory can show (missing / directory input, damaged stored input, destination is a directory) is repeated with the shipped, uninstrumented fc on a real directory holding the disk image; it must exit in the same class and leave every file as the simulated run stored it; a shipped binary still running after the 90 s watchdog while the simulated run ended within a tenth of the step budget is reported as real-disk:hang. Counts: counters real_directory_*",
+			"stress_schemas":                "1 scenario in 60 is a stress schema (record diamond, union chains, nested instantiation, tuple doubling, nested lambdas / ifs / matches / slices / constructors / record literals, long pipeline, wide record / union / parameter list, unannotated call chain; size 3..40); exhaustion on such an input is signed by schema family",
 		},
 		[]string{"crash/restart and lying storage are not modelled (no property speaks about a killed fc)",
 			"a Go panic that ends the process with status 2 and a message counts as a diagnostic, not as a runtime fatal error",
